@@ -105,6 +105,26 @@ Example C12_ex_returns :
   procs ex_end !! EngineCancel.p_caller 3 = Some (AppEngine.End AppEngine.RCaller) /\ panicked ex_end = false.
 Proof. vm_compute. split; reflexivity. Qed.
 
+(* ---- non-vacuity of the frozen-sender statement: a 2-worker pipeline on 8 requests, cancelled after 4 rounds
+   while the sender is INSIDE the write of frame 0 (SWrite 0); from then on only the two error multiplexers (8, 9),
+   the closer of the merged stream (10) and the drain (11) are scheduled: the drain ends, the merged stream is
+   closed, and the sender, the source, the workers and the multiplexers are where the cancellation found them ---- *)
+Definition pk_all_ok (_ : nat) := true.
+Definition pk_no_stall (l : Pipeline.loc) : bool := match l with Pipeline.Src _ => true | _ => false end.
+Definition pk_reqs := [(0, false); (1, false); (2, true); (3, false); (4, false); (5, false); (6, false); (7, false)].
+Definition pk_mid := exec (Pipeline.beh 2 pk_all_ok pk_all_ok) (fun _ => 0) pk_no_stall (rounds 4 12 ++ [Cancel]) (Pipeline.init 2 1 pk_reqs).
+Fixpoint pk_rep (k : nat) (l : list action) : list action := match k with 0 => [] | S k => l ++ pk_rep k l end.
+Definition pk_end := exec (Pipeline.beh 2 pk_all_ok pk_all_ok) (fun _ => 0) pk_no_stall (pk_rep 30 [Run 8; Run 9; Run 10; Run 11]) pk_mid.
+Example C12_ex_sender_mid_write :
+  reachable (Pipeline.beh 2 pk_all_ok pk_all_ok) (Pipeline.init 2 1 pk_reqs) pk_mid /\ cancelled pk_mid = true /\
+  procs pk_mid !! p_sender 2 = Some (Pipeline.SWrite 0).
+Proof. split; [apply exec_reachable; apply R0|]. vm_compute. split; reflexivity. Qed.
+Example C12_ex_returns_sender_frozen :
+  procs pk_end !! PipelineCancel.p_drain 2 = Some (Pipeline.End Pipeline.RDrain) /\
+  procs pk_end !! p_sender 2 = Some (Pipeline.SWrite 0) /\
+  take 8 (procs pk_end) = take 8 (procs pk_mid) /\ panicked pk_end = false.
+Proof. vm_compute. repeat split; reflexivity. Qed.
+
 Print Assumptions C12_no_panic_packet.
 Print Assumptions C12_no_panic_app.
 Print Assumptions C12_closed_is_dead_packet.
